@@ -252,3 +252,53 @@ Lemma reply_wf_examples :
   reply_allowed "h" (CHello "2.0" [] (HClient true false "u" JNull "t")) (RError "invalid_token" "h") = true /\
   reply_allowed "h" (CHello "2.0" [] (HClient true false "u" JNull "t")) (RError "invalid_token" "other") = false.
 Proof. repeat split; reflexivity. Qed.
+
+(* ---- strengthening s30: the lifetime clause of P_C10 for protocol 2.0 hellos ------------------------------------------
+   [token_untimely] leaves nothing out on the side of the missing / inconsistent claims: a token for which the clause
+   does not demand a refusal has an iat and an exp, exp not before iat, and iat / nbf / exp within twice the leeway
+   of now. *)
+Lemma untimely_complete : forall i n e,
+  token_untimely (i, n, e) = false ->
+  exists iv ev, i = Some iv /\ e = Some ev /\ (iv <= ev)%Z /\ (iv < 2 * token_leeway)%Z /\ (- (2 * token_leeway) < ev)%Z /\
+                forall nv, n = Some nv -> (nv < 2 * token_leeway)%Z.
+Proof.
+  intros i n e H. unfold token_untimely in H.
+  apply orb_false_iff in H. destruct H as [H Hn]. apply orb_false_iff in H. destruct H as [Hi He].
+  destruct i as [iv|]; [|discriminate]. destruct e as [ev|]; [|discriminate].
+  apply orb_false_iff in He. destruct He as [He1 He2].
+  apply Z.leb_gt in Hi. apply Z.leb_gt in He1. apply Z.ltb_ge in He2.
+  exists iv, ev. repeat split; auto.
+  intros nv ->. apply Z.leb_gt in Hn. exact Hn.
+Qed.
+
+(* ... and it demands the refusal whenever a claim is missing or the two are inconsistent, whatever the other values *)
+Lemma untimely_missing : forall i n e,
+  i = None \/ e = None \/ (exists iv ev, i = Some iv /\ e = Some ev /\ (ev < iv)%Z) -> token_untimely (i, n, e) = true.
+Proof.
+  intros i n e [-> | [-> | [iv [ev [-> [-> H]]]]]]; unfold token_untimely.
+  - reflexivity.
+  - destruct i; rewrite ?orb_true_r; reflexivity.
+  - apply Z.ltb_lt in H. rewrite H. rewrite !orb_true_r. reflexivity.
+Qed.
+
+Definition ex_hello_v2 (aty : list (string * json)) (tok : string) : json :=
+  JObj [("id", JStr "h"); ("type", JStr "hello");
+        ("hello", JObj [("version", JStr "2.0"); ("auth", JObj (aty ++ [("url", JStr "@BURL@"); ("params", JObj [("token", JStr tok)])]))])].
+Definition ex_obs (r : list reply) (dsame : bool) : obs := mkobs true r false [] true dsame 0 0 true.
+
+(* the clause is the same for the auth types (absent = client, client, federation); a token with all claims in order is
+   not concerned; a session (hello reply, tables changed) for an untimely token fails P_C10, the coded error passes *)
+Lemma untimely_examples :
+  forallb (fun aty => forallb (fun tok => must_refuse_hello 0 (IDoc (ex_hello_v2 aty tok)))
+                        ["@TOK:0:0:1:-5:_:_:@"; "@TOK:0:0:1:_:_:300:@"; "@TOK:0:2:1:-10:_:-40:@"; "@TOK:0:0:1:_:-5:_:hb@";
+                         "@TOK:0:0:1:-600:_:-500:@"; "@TOK:0:0:1:500:_:900:@"; "@TOK:0:0:1:-5:500:900:@"])
+          [[]; [("type", JStr "client")]; [("type", JStr "federation")]] = true /\
+  forallb (fun aty => forallb (fun tok => negb (must_refuse_hello 0 (IDoc (ex_hello_v2 aty tok))))
+                        ["@TOK:0:0:1:-5:_:300:@"; "@TOK:0:0:1:-100:-10:-30:@"; "@TOK:0:0:1:30:_:300:@"; "x.y.z"; "@TOK:0:0:1:-5:_:abc:@"])
+          [[]; [("type", JStr "client")]; [("type", JStr "federation")]] = true /\
+  must_refuse_hello 1 (IDoc (ex_hello_v2 [("type", JStr "federation")] "@TOK:0:0:1:-5:_:_:@")) = false /\
+  P_one (fun _ => false) 0 (IDoc (ex_hello_v2 [("type", JStr "federation")] "@TOK:0:0:1:-5:_:_:@")) (ex_obs [RHello "h"] false) = false /\
+  P_one (fun _ => false) 0 (IDoc (ex_hello_v2 [("type", JStr "federation")] "@TOK:0:0:1:-5:_:_:@")) (ex_obs [RError "" "h"] true) = false /\
+  P_one (fun _ => false) 0 (IDoc (ex_hello_v2 [("type", JStr "federation")] "@TOK:0:0:1:-5:_:_:@")) (ex_obs [RError "token_expired" "h"] true) = true /\
+  P_one (fun _ => false) 0 (IDoc (ex_hello_v2 [("type", JStr "federation")] "@TOK:0:0:1:-5:_:300:@")) (ex_obs [RHello "h"] false) = true.
+Proof. repeat split; vm_compute; reflexivity. Qed.
